@@ -1,4 +1,5 @@
 pub mod adeval;
+pub mod bspline;
 pub mod civil;
 pub mod interp;
 pub mod roll;
